@@ -9,7 +9,7 @@
 From Crusta Require Import Model.Dynamic Spec.SemFacts Spec.Theory Spec.Invariance Proofs.ProgLaws Proofs.StoreBase
   Proofs.StoreProofs Proofs.EncBase Proofs.SolverBasics Proofs.MaxExtCore Proofs.GroundedProofs Proofs.DynDefs
   Proofs.DynBase Proofs.DynProofs Proofs.DynEnc Proofs.DynSafe Proofs.DynStore Proofs.DynFunDefs Proofs.DynInv
-  Proofs.DynFun Proofs.CompProofs.
+  Proofs.DynFun Proofs.DynTotal Proofs.CompProofs.
 From Coq Require Import Lia ZifyBool.
 
 Lemma Forall2_in_l {A B} (R : A -> B -> Prop) l1 l2 x :
@@ -310,17 +310,61 @@ Proof.
   rewrite Hs. apply blocked_add; [exact Hb|]. exact (proj2 (dyn_split_spec _ _ _ E1)).
 Qed.
 
-Lemma new_search_step k ps Bs k' ps' :
-  k_sel k = zlit g -> blocked ps Bs -> dead Bs -> k_new_search oracle e k ps = Done k' ps' ->
-  linv k' ps' Bs /\ (k_state k' = MIntermediate \/ k_state k' = MNone).
+(* ---- ghost lists for the fuel bound: the sets that have been current (pairwise different complete
+   extensions), the maximal sets reached (pairwise different preferred extensions) *)
+Definition cnt (k : dcomp) (Bs Ss Ps : list (list nat)) : Prop :=
+  (forall S, In S Ss -> co F S) /\ sepl Ss /\ (forall P, In P Ps -> pr F P /\ In P Bs) /\ sepl Ps /\
+  match k_state k with
+  | MInit => Ss = [] /\ Ps = []
+  | MIntermediate => forall S, In S Ss -> In S Bs \/ S = k_cur k
+  | MNone => True
+  | _ => forall S, In S Ss -> In S Bs
+  end.
+Definition pot (Ss Ps : list (list nat)) (st : mstate) : nat :=
+  length Ss + length Ps + match st with MNone => 1 | _ => 0 end.
+
+Lemma sepl_co_le l : (forall S, In S l -> co F S) -> sepl l -> length l <= length (all_exts CO F).
 Proof.
-  intros Hs Hb Hd E. unfold k_new_search in E. apply bind_Done in E. destruct E as (r & ps1 & E1 & E2).
+  intros Hb Hs. rewrite all_exts_eq. apply sepl_length_le; [| |exact Hs].
+  - intros S HS. apply (ext_incl CO F S). now apply Hb.
+  - intros S HS. apply (extb_ext CO). apply (ext_seteq CO F S).
+    + apply seteq_sym, canon_seteq. apply (ext_incl CO F S). now apply Hb.
+    + now apply Hb.
+Qed.
+
+(* the bound on the number of iterations of the search: complete + preferred extensions + 1 *)
+Definition pr_dyn_bound : nat := length (all_exts CO F) + length (all_exts PR F) + 1.
+
+Lemma pot_lt k Bs Ss Ps : cnt k Bs Ss Ps -> k_state k <> MNone -> pot Ss Ps (k_state k) < pr_dyn_bound.
+Proof.
+  intros (HS & HsS & HP & HsP & _) Hn. pose proof (sepl_co_le Ss HS HsS).
+  assert (length Ps <= length (all_exts PR F)) by (apply sepl_pr_le; [intros P H'; apply HP, H'|exact HsP]).
+  unfold pot, pr_dyn_bound. destruct (k_state k); try lia. congruence.
+Qed.
+
+Lemma new_search_step k ps Bs Ss Ps k' ps' :
+  k_sel k = zlit g -> blocked ps Bs -> dead Bs ->
+  (forall S, In S Ss -> co F S) -> sepl Ss -> (forall P, In P Ps -> pr F P /\ In P Bs) -> sepl Ps ->
+  (forall S, In S Ss -> In S Bs) ->
+  k_new_search oracle e k ps = Done k' ps' ->
+  exists Ss', linv k' ps' Bs /\ cnt k' Bs Ss' Ps /\ (k_state k' = MIntermediate \/ k_state k' = MNone) /\
+              pot Ss' Ps (k_state k') = length Ss + length Ps + 1.
+Proof.
+  intros Hs Hb Hd HS HsS HP HsP HSB E. unfold k_new_search in E. apply bind_Done in E. destruct E as (r & ps1 & E1 & E2).
   rewrite Hs in E1. change [negate (zlit g)] with ([] ++ [negate (zlit g)]) in E1.
   destruct (solve_step ps Bs [] [] r ps1 Hb is_in_nil E1) as [Hb1 Hr].
   apply ret_Done in E2. destruct E2 as [<- <-]. destruct r as [X|].
-  - destruct Hr as (K1 & K2 & _ & K4). split; [|left; reflexivity]. unfold linv. cbn [k_with k_sel k_state k_cur]. auto 7.
-  - split; [|right; reflexivity]. unfold linv. cbn [k_with k_sel k_state k_cur].
-    split; [exact Hs|]. split; [exact Hb1|]. split; [exact Hd|]. intros S HS. apply Hr; [exact HS|intros a []].
+  - destruct Hr as (K1 & K2 & _ & K4). exists (X :: Ss). split; [|split; [|split; [left; reflexivity|]]].
+    + unfold linv. cbn [k_with k_sel k_state k_cur]. auto 7.
+    + unfold cnt. cbn [k_with k_state k_cur]. split; [intros S [<-|H']; auto|].
+      split; [split; [|exact HsS]; intros T HT; apply not_incl_not_seteq, K4, HSB, HT|].
+      split; [exact HP|]. split; [exact HsP|]. intros S [<-|H']; auto.
+    + unfold pot. cbn [k_with k_state length]. lia.
+  - exists Ss. split; [|split; [|split; [right; reflexivity|]]].
+    + unfold linv. cbn [k_with k_sel k_state k_cur].
+      split; [exact Hs|]. split; [exact Hb1|]. split; [exact Hd|]. intros S HS'. apply Hr; [exact HS'|intros a []].
+    + unfold cnt. cbn [k_with k_state]. auto.
+    + unfold pot. cbn [k_with k_state]. lia.
 Qed.
 
 Definition next_ok (st st' : mstate) : Prop :=
@@ -331,12 +375,13 @@ Definition next_ok (st st' : mstate) : Prop :=
   | MNone => False
   end.
 
-Lemma k_compute_next_step k ps Bs k' ps' :
-  linv k ps Bs -> (k_state k = MMaximal -> In id (k_cur k)) ->
+Lemma k_compute_next_step k ps Bs Ss Ps k' ps' :
+  linv k ps Bs -> cnt k Bs Ss Ps -> (k_state k = MMaximal -> In id (k_cur k)) ->
   k_compute_next oracle L af e k ps = Done k' ps' ->
-  exists Bs', linv k' ps' Bs' /\ next_ok (k_state k) (k_state k').
+  exists Bs' Ss' Ps', linv k' ps' Bs' /\ cnt k' Bs' Ss' Ps' /\ next_ok (k_state k) (k_state k') /\
+                      pot Ss' Ps' (k_state k') = pot Ss Ps (k_state k) + 1.
 Proof.
-  intros (Hs & Hb & Hst) Hmx E. unfold k_compute_next in E. destruct (k_state k) eqn:Est.
+  intros (Hs & Hb & Hst) (HS & HsS & HP & HsP & Hc) Hmx E. unfold k_compute_next in E. destruct (k_state k) eqn:Est.
   - (* Maximal, contains id: block it again, search elsewhere *)
     destruct Hst as (Bs0 & -> & Hpr & Hnd & Hd0).
     apply bind_Done in E. destruct E as (u & ps1 & E1 & E2).
@@ -344,7 +389,11 @@ Proof.
     assert (Hd : dead ((Bs0 ++ [k_cur k]) ++ [k_cur k])).
     { pose proof (dead_has_id (k_cur k) (pr_adm F _ Hpr) (Hmx eq_refl)) as Hdc.
       apply dead_app; [apply dead_app|]; assumption. }
-    destruct (new_search_step k ps1 _ k' ps' Hs Hb1 Hd E2) as [Hl Hn]. eexists. split; [exact Hl|exact Hn].
+    destruct (new_search_step k ps1 _ Ss Ps k' ps' Hs Hb1 Hd HS HsS) as (Ss' & Hl & Hc' & Hn & Hp); try assumption.
+    + intros P HP'. destruct (HP P HP') as [H1 H1']. split; [exact H1|apply in_or_app; left; exact H1'].
+    + intros S HS'. apply in_or_app. left. apply Hc, HS'.
+    + exists ((Bs0 ++ [k_cur k]) ++ [k_cur k]), Ss', Ps. split; [exact Hl|]. split; [exact Hc'|]. split; [exact Hn|].
+      rewrite Hp. unfold pot. lia.
   - (* Intermediate: block the current set, look for a strictly larger one *)
     destruct Hst as (Hco & Hnd & Hnb & Hd).
     apply bind_Done in E. destruct E as ([ins outs] & ps1 & E1 & E2). apply opt_m_Done in E1. destruct E1 as [E1 ->].
@@ -353,73 +402,133 @@ Proof.
     rewrite Hs in E3. pose proof (blocked_add ps Bs (k_cur k) _ Hb Hbc) as Hb1.
     apply bind_Done in E3. destruct E3 as (r & ps3 & E3 & E4).
     destruct (solve_step _ _ ins (k_cur k) r ps3 Hb1 Hin E3) as [Hb2 Hr].
-    apply ret_Done in E4. destruct E4 as [<- <-]. exists (Bs ++ [k_cur k]). destruct r as [X|].
-    + destruct Hr as (K1 & K2 & K3 & K4). split; [|left; reflexivity].
-      unfold linv. cbn [k_with k_sel k_state k_cur]. split; [exact Hs|]. split; [exact Hb2|].
-      split; [exact K1|]. split; [exact K2|]. split; [exact K4|].
-      apply dead_app; [exact Hd|]. apply (dead_grown (k_cur k) X); [apply co_adm, Hco|apply co_adm, K1| |].
-      * intros a Ha. apply K3; [exact Ha|apply (co_ids _ Hco), Ha].
-      * apply K4. apply in_or_app. right. left. reflexivity.
-    + split; [|right; reflexivity]. unfold linv. cbn [k_with k_sel k_state k_cur]. split; [exact Hs|]. split; [exact Hb2|].
-      exists Bs. split; [reflexivity|]. split; [|auto]. apply max_co_pr; [exact Hco|].
-      intros T HT Hi. destruct (Hr T HT Hi) as (B & HB & HTB). apply in_app_or in HB.
-      destruct HB as [HB|[<-|[]]]; [|exact HTB]. exfalso. apply (Hnb B HB). exact (incl_tran Hi HTB).
-  - destruct (new_search_step k ps Bs k' ps' Hs Hb Hst E) as [Hl Hn]. exists Bs. auto.
+    apply ret_Done in E4. destruct E4 as [<- <-].
+    assert (HSB : forall S, In S Ss -> In S (Bs ++ [k_cur k])).
+    { intros S HS'. apply in_or_app. destruct (Hc S HS') as [H'| ->]; [left; exact H'|right; left; reflexivity]. }
+    assert (HPB : forall P, In P Ps -> pr F P /\ In P (Bs ++ [k_cur k])).
+    { intros P HP'. destruct (HP P HP') as [H1 H1']. split; [exact H1|apply in_or_app; left; exact H1']. }
+    destruct r as [X|].
+    + destruct Hr as (K1 & K2 & K3 & K4). exists (Bs ++ [k_cur k]), (X :: Ss), Ps.
+      split; [|split; [|split; [left; reflexivity|]]].
+      * unfold linv. cbn [k_with k_sel k_state k_cur]. split; [exact Hs|]. split; [exact Hb2|].
+        split; [exact K1|]. split; [exact K2|]. split; [exact K4|].
+        apply dead_app; [exact Hd|]. apply (dead_grown (k_cur k) X); [apply co_adm, Hco|apply co_adm, K1| |].
+        -- intros a Ha. apply K3; [exact Ha|apply (co_ids _ Hco), Ha].
+        -- apply K4. apply in_or_app. right. left. reflexivity.
+      * unfold cnt. cbn [k_with k_state k_cur]. split; [intros S [<-|H']; auto|].
+        split; [split; [|exact HsS]; intros T HT; apply not_incl_not_seteq, K4, HSB, HT|].
+        split; [exact HPB|]. split; [exact HsP|]. intros S [<-|H']; auto.
+      * unfold pot. cbn [k_with k_state length]. lia.
+    + exists (Bs ++ [k_cur k]), Ss, (k_cur k :: Ps).
+      assert (Hpr : pr F (k_cur k)).
+      { apply max_co_pr; [exact Hco|]. intros T HT Hi. destruct (Hr T HT Hi) as (B & HB & HTB). apply in_app_or in HB.
+        destruct HB as [HB|[<-|[]]]; [|exact HTB]. exfalso. apply (Hnb B HB). exact (incl_tran Hi HTB). }
+      split; [|split; [|split; [right; reflexivity|]]].
+      * unfold linv. cbn [k_with k_sel k_state k_cur]. split; [exact Hs|]. split; [exact Hb2|].
+        exists Bs. auto.
+      * unfold cnt. cbn [k_with k_state k_cur]. split; [exact HS|]. split; [exact HsS|]. split.
+        { intros P [<-|HP']; [split; [exact Hpr|apply in_or_app; right; left; reflexivity]|apply HPB, HP']. }
+        split; [split; [|exact HsP]; intros T HT; apply not_incl_not_seteq, Hnb, (HP T HT)|]. exact HSB.
+      * unfold pot. cbn [k_with k_state length]. lia.
+  - destruct (new_search_step k ps Bs Ss Ps k' ps' Hs Hb Hst HS HsS HP HsP Hc E) as (Ss' & Hl & Hc' & Hn & Hp).
+    exists Bs, Ss', Ps. split; [exact Hl|]. split; [exact Hc'|]. split; [exact Hn|]. rewrite Hp. unfold pot. lia.
   - discriminate E.
-  - apply ret_Done in E. destruct E as [<- <-]. subst Bs. exists []. split; [|reflexivity].
-    unfold linv. cbn [k_with k_sel k_state k_cur]. split; [exact Hs|]. split; [exact Hb|].
-    split; [exact (proj1 Hgr)|]. split; [exact (proj2 Hgr)|]. split; [intros B []|apply dead_nil].
+  - apply ret_Done in E. destruct E as [<- <-]. subst Bs. destruct Hc as [-> ->]. exists [], [gr0], [].
+    split; [|split; [|split; [reflexivity|reflexivity]]].
+    + unfold linv. cbn [k_with k_sel k_state k_cur]. split; [exact Hs|]. split; [exact Hb|].
+      split; [exact (proj1 Hgr)|]. split; [exact (proj2 Hgr)|]. split; [intros B []|apply dead_nil].
+    + unfold cnt. cbn [k_with k_state k_cur]. split; [intros S [<-|[]]; exact (proj1 Hgr)|].
+      split; [split; [intros T []|exact I]|]. split; [intros P []|]. split; [exact I|]. intros S [<-|[]]. right. reflexivity.
 Qed.
 
-(* the result of the loop *)
+(* never out of fuel, structurally *)
+Lemma nof_k_solve a : nof (k_solve oracle e a).
+Proof. unfold k_solve. apply nof_bind; [apply nof_solve|intros r; apply nof_ret]. Qed.
+Lemma nof_k_new_search k : nof (k_new_search oracle e k).
+Proof. unfold k_new_search. apply nof_bind; [apply nof_k_solve|intros r; apply nof_ret]. Qed.
+Lemma nof_k_discard k : nof (k_discard L af e k).
+Proof. unfold k_discard. apply nof_bind; [apply nof_opt_m|intros sp; apply nof_add_clause]. Qed.
+Lemma nof_k_compute_next k : nof (k_compute_next oracle L af e k).
+Proof.
+  unfold k_compute_next. destruct (k_state k).
+  - apply nof_bind; [apply nof_k_discard|intros _; apply nof_k_new_search].
+  - apply nof_bind; [apply nof_opt_m|]. intros sp. apply nof_bind; [apply nof_add_clause|]. intros _.
+    apply nof_bind; [apply nof_k_solve|intros r; apply nof_ret].
+  - apply nof_k_new_search.
+  - apply nof_panic.
+  - apply nof_ret.
+Qed.
+
+(* the result of the loop, for every outcome *)
 Definition loop_post (result : bool) (ext : option (list nat)) : Prop :=
   (result = false /\ exists X, ext = Some X /\ pr F X /\ NoDup X /\ ~ In id X) \/
   (result = true /\ ext = None /\ forall P, pr F P -> In id P).
 
-Lemma pr_loop_spec fuel : forall k fm in_all missing ps k' result acc_b ref_b ext ps' Bs,
-  linv k ps Bs -> k_state k <> MNone -> (k_state k = MMaximal -> In id (k_cur k)) -> id < length missing ->
-  pr_loop oracle L fuel af e id k fm in_all missing ps = Done (k', result, acc_b, ref_b, ext) ps' ->
-  loop_post result ext.
+Lemma pr_loop_out fuel : forall k fm in_all missing ps Bs Ss Ps,
+  linv k ps Bs -> cnt k Bs Ss Ps -> k_state k <> MNone -> (k_state k = MMaximal -> In id (k_cur k)) ->
+  id < length missing ->
+  match pr_loop oracle L fuel af e id k fm in_all missing ps with
+  | Done (_, result, _, _, ext) _ => loop_post result ext
+  | OutOfFuel _ => fuel + pot Ss Ps (k_state k) < pr_dyn_bound
+  | _ => True
+  end.
 Proof.
-  induction fuel as [|f IH]; intros k fm in_all missing ps k' result acc_b ref_b ext ps' Bs Hl Hnn Hmx Hlen E;
-    cbn [pr_loop] in E; [discriminate E|].
-  apply bind_Done in E. destruct E as (k1 & ps1 & E1 & E2).
-  destruct (k_compute_next_step k ps Bs k1 ps1 Hl Hmx E1) as (Bs1 & Hl1 & Hn).
-  pose proof Hl1 as (Hs1 & Hb1 & Hst1).
-  destruct (k_state k1) eqn:Est1.
-  - (* Maximal *)
-    destruct Hst1 as (Bs0 & HBs & Hpr & Hnd & Hd0).
-    rewrite (nth_bools_of _ _ _ Hlen) in E2.
-    destruct (memb id (k_cur k1)) eqn:Em; cbn [negb] in E2.
-    + eapply (IH k1 _ _ _ ps1); [exact Hl1|rewrite Est1; discriminate|intros _; apply memb_spec, Em| |exact E2].
-      destruct fm; [rewrite length_add_defeated; exact Hlen|].
-      rewrite map_length, combine_length, length_add_defeated, length_bools_of. lia.
-    + apply ret_Done in E2. destruct E2 as [E2 _].
-      repeat (apply pair_equal_spec in E2; destruct E2 as [E2 ?]). subst.
-      left. split; [reflexivity|]. eexists. split; [reflexivity|]. split; [exact Hpr|]. split; [exact Hnd|].
-      apply memb_false, Em.
-  - (* Intermediate *)
-    destruct Hst1 as (Hco & Hnd & Hnb & Hd).
-    destruct (memb id (k_cur k1)) eqn:Em.
-    + apply bind_Done in E2. destruct E2 as (u & ps2 & E2 & E3).
-      pose proof (k_discard_step k1 ps1 Bs1 u ps2 Hs1 Hb1 E2) as Hb2.
-      eapply (IH (k_with k1 (k_cur k1) MJustDiscarded) _ _ _ ps2 _ _ _ _ _ _ (Bs1 ++ [k_cur k1])); [| | | |exact E3].
-      * unfold linv. cbn [k_with k_sel k_state k_cur]. split; [exact Hs1|]. split; [exact Hb2|].
-        apply dead_app; [exact Hd|]. apply dead_has_id; [apply co_adm, Hco|apply memb_spec, Em].
-      * cbn [k_with k_state]. discriminate.
-      * cbn [k_with k_state]. discriminate.
-      * rewrite length_add_defeated. exact Hlen.
-    + eapply (IH k1 _ _ _ ps1); [exact Hl1|rewrite Est1; discriminate|rewrite Est1; discriminate| |exact E2].
-      rewrite length_add_defeated. exact Hlen.
-  - eapply (IH k1 _ _ _ ps1); [exact Hl1|rewrite Est1; discriminate|rewrite Est1; discriminate|exact Hlen|exact E2].
-  - (* None: every preferred extension contains id *)
-    apply ret_Done in E2. destruct E2 as [E2 _].
-    repeat (apply pair_equal_spec in E2; destruct E2 as [E2 ?]). subst.
-    right. split; [reflexivity|]. split; [reflexivity|]. intros P HP.
-    destruct (in_dec Nat.eq_dec id P) as [Hi|Hn']; [exact Hi|exfalso].
-    destruct Hst1 as [Hd Hcov]. destruct (Hcov P (pr_co F P Hwf HP)) as (B & HB & HPB).
-    exact (Hd B P HB HP Hn' HPB).
-  - eapply (IH k1 _ _ _ ps1); [exact Hl1|rewrite Est1; discriminate|rewrite Est1; discriminate|exact Hlen|exact E2].
+  induction fuel as [|f IH]; intros k fm in_all missing ps Bs Ss Ps Hl Hc Hnn Hmx Hlen; cbn [pr_loop].
+  - unfold out_of_fuel. cbn [Nat.add]. eapply pot_lt; eassumption.
+  - unfold bind at 1. pose proof (nof_k_compute_next k ps) as Hnof.
+    destruct (k_compute_next oracle L af e k ps) as [k1 ps1| | |] eqn:E1; try exact I; [|destruct Hnof].
+    destruct (k_compute_next_step k ps Bs Ss Ps k1 ps1 Hl Hc Hmx E1) as (Bs1 & Ss1 & Ps1 & Hl1 & Hc1 & Hn & Hp).
+    pose proof Hl1 as (Hs1 & Hb1 & Hst1).
+    assert (Hrec : forall k2 fm2 ia2 ms2 ps2 Bs2 Ss2 Ps2,
+              linv k2 ps2 Bs2 -> cnt k2 Bs2 Ss2 Ps2 -> k_state k2 <> MNone ->
+              (k_state k2 = MMaximal -> In id (k_cur k2)) -> id < length ms2 ->
+              pot Ss2 Ps2 (k_state k2) = pot Ss Ps (k_state k) + 1 ->
+              match pr_loop oracle L f af e id k2 fm2 ia2 ms2 ps2 with
+              | Done (_, result, _, _, ext) _ => loop_post result ext
+              | OutOfFuel _ => S f + pot Ss Ps (k_state k) < pr_dyn_bound
+              | _ => True
+              end).
+    { intros k2 fm2 ia2 ms2 ps2 Bs2 Ss2 Ps2 A1 A2 A3 A4 A5 A6.
+      pose proof (IH k2 fm2 ia2 ms2 ps2 Bs2 Ss2 Ps2 A1 A2 A3 A4 A5) as G.
+      destruct (pr_loop oracle L f af e id k2 fm2 ia2 ms2 ps2) as [[[[[? ?] ?] ?] ?] ?| | |]; auto. lia. }
+    destruct (k_state k1) eqn:Est1.
+    + (* Maximal *)
+      destruct Hst1 as (Bs0 & HBs & Hpr & Hnd & Hd0).
+      rewrite (nth_bools_of _ _ _ Hlen).
+      destruct (memb id (k_cur k1)) eqn:Em; cbn [negb].
+      * apply (Hrec k1 _ _ _ ps1 Bs1 Ss1 Ps1); auto; try (rewrite Est1; auto; discriminate).
+        -- intros _. apply memb_spec, Em.
+        -- destruct fm; [rewrite length_add_defeated; exact Hlen|].
+           rewrite map_length, combine_length, length_add_defeated, length_bools_of. lia.
+      * unfold ret. left. split; [reflexivity|]. eexists. split; [reflexivity|]. split; [exact Hpr|]. split; [exact Hnd|].
+        apply memb_false, Em.
+    + (* Intermediate *)
+      destruct Hst1 as (Hco & Hnd & Hnb & Hd).
+      destruct (memb id (k_cur k1)) eqn:Em.
+      * unfold bind at 1. pose proof (nof_k_discard k1 ps1) as Hnof'.
+        destruct (k_discard L af e k1 ps1) as [u ps2| | |] eqn:E2; try exact I; [|destruct Hnof'].
+        pose proof (k_discard_step k1 ps1 Bs1 u ps2 Hs1 Hb1 E2) as Hb2.
+        apply (Hrec (k_with k1 (k_cur k1) MJustDiscarded) _ _ _ ps2 (Bs1 ++ [k_cur k1]) Ss1 Ps1).
+        -- unfold linv. cbn [k_with k_sel k_state k_cur]. split; [exact Hs1|]. split; [exact Hb2|].
+           apply dead_app; [exact Hd|]. apply dead_has_id; [apply co_adm, Hco|apply memb_spec, Em].
+        -- destruct Hc1 as (A1 & A2 & A3 & A4 & A5). rewrite Est1 in A5. unfold cnt. cbn [k_with k_state].
+           split; [exact A1|]. split; [exact A2|]. split.
+           { intros P HP'. destruct (A3 P HP') as [B1 B2]. split; [exact B1|apply in_or_app; left; exact B2]. }
+           split; [exact A4|]. intros S HS'. apply in_or_app.
+           destruct (A5 S HS') as [H'| ->]; [left; exact H'|right; left; reflexivity].
+        -- cbn [k_with k_state]. discriminate.
+        -- cbn [k_with k_state]. discriminate.
+        -- rewrite length_add_defeated. exact Hlen.
+        -- cbn [k_with k_state]. rewrite <- Hp. reflexivity.
+      * apply (Hrec k1 _ _ _ ps1 Bs1 Ss1 Ps1); auto; try (rewrite Est1; auto; discriminate).
+        rewrite length_add_defeated. exact Hlen.
+    + apply (Hrec k1 _ _ _ ps1 Bs1 Ss1 Ps1); auto; rewrite Est1; auto; discriminate.
+    + (* None: every preferred extension contains id *)
+      unfold ret. right. split; [reflexivity|]. split; [reflexivity|]. intros P HP.
+      destruct (in_dec Nat.eq_dec id P) as [Hi|Hn']; [exact Hi|exfalso].
+      destruct Hst1 as [Hd Hcov]. destruct (Hcov P (pr_co F P Hwf HP)) as (B & HB & HPB).
+      exact (Hd B P HB HP Hn' HPB).
+    + apply (Hrec k1 _ _ _ ps1 Bs1 Ss1 Ps1); auto; rewrite Est1; auto; discriminate.
 Qed.
 
 End Loop.
@@ -509,7 +618,44 @@ Qed.
 Lemma fresh_reachable_g os : GroundedProofs.reachable L leqb (run_ops fresh os).
 Proof. exists [], os. reflexivity. Qed.
 
-(* ---- a search that returns gives the right answer *)
+(* ---- the outcome of a search *)
+Lemma pr_search_out fuel (af : fw) e ps1 ps2 l id os :
+  ready L af e ps1 -> e_sem e = DPR ->
+  (forall x, live_var e x -> x <= session_n_vars (sess ps1)) ->
+  bounded (cls ps1) (session_n_vars (sess ps1)) ->
+  af = run_ops fresh os -> get_argument af l = Some id -> sess ps2 = sess ps1 ->
+  match pr_loop oracle L fuel af e id
+          {| k_cur := []; k_state := MInit; k_sel := zlit (1 + session_n_vars (sess ps1)) |} true None
+          (repeat false (1 + match max_argument_id L af with Some m => m | None => 0 end)) ps2 with
+  | Done (_, result, _, _, ext) _ =>
+      (result = false /\ exists X, ext = Some X /\ pr (af_of af) X /\ NoDup X /\ ~ In id X) \/
+      (result = true /\ ext = None /\ forall P, pr (af_of af) P -> In id P)
+  | OutOfFuel _ => fuel < pr_dyn_bound af
+  | _ => True
+  end.
+Proof.
+  intros [Ht Hinv Hz Hcv (dv & atk & H1 & H2 & H3 & H4 & H5)] Hsem Hlv Hbd Haf Hid Hs2.
+  assert (Hcls : cls ps2 = cls ps1) by (unfold cls; now rewrite Hs2).
+  assert (Hwf : wf (af_of af)) by (rewrite Haf; exact (af_of_wf L leqb leqb_spec _ (fresh_reachable_g os))).
+  assert (Hgr : co (af_of af) (grounded (view_of_fw af)) /\ NoDup (grounded (view_of_fw af))).
+  { rewrite Haf. destruct (grounded_store L leqb leqb_spec _ (fresh_reachable_g os)) as [[Hco _] Hnd]. split; assumption. }
+  assert (Hlive : has af id = true) by (eapply (get_argument_live L leqb leqb_spec); eassumption).
+  pose proof (pr_loop_out af e (cls ps1) (1 + session_n_vars (sess ps1)) id dv atk Ht Hinv Hz Hcv H2 H3 H4 H5 Hsem) as G.
+  specialize (G ltac:(intros x Hx; specialize (Hlv x Hx); lia)).
+  specialize (G ltac:(replace (1 + session_n_vars (sess ps1) - 1) with (session_n_vars (sess ps1)) by lia; exact Hbd)).
+  specialize (G Hwf Hgr ltac:(lia) fuel
+                {| k_cur := []; k_state := MInit; k_sel := zlit (1 + session_n_vars (sess ps1)) |} true None
+                (repeat false (1 + match max_argument_id L af with Some m => m | None => 0 end)) ps2 [] [] []).
+  cbn [k_state pot length Nat.add] in G. rewrite Nat.add_0_r in G. apply G.
+  - unfold linv. cbn [k_sel k_state]. split; [reflexivity|]. split; [|reflexivity].
+    exists []. rewrite app_nil_r. split; [exact Hcls|constructor].
+  - unfold cnt. cbn [k_state sepl]. split; [intros S []|]. split; [exact I|]. split; [intros P []|]. split; [exact I|]. split; reflexivity.
+  - discriminate.
+  - discriminate.
+  - rewrite repeat_length. pose proof (has_lt L af id Hlive) as Hl.
+    unfold max_argument_id, ls_max_id. destruct (slots (ls af)); cbn [length] in *; lia.
+Qed.
+
 Lemma pr_search_correct fuel (af : fw) e ps1 ps2 l id k result acc_b ref_b ext ps3 os :
   ready L af e ps1 -> e_sem e = DPR ->
   (forall x, live_var e x -> x <= session_n_vars (sess ps1)) ->
@@ -522,23 +668,8 @@ Lemma pr_search_correct fuel (af : fw) e ps1 ps2 l id k result acc_b ref_b ext p
   (result = false /\ exists X, ext = Some X /\ pr (af_of af) X /\ NoDup X /\ ~ In id X) \/
   (result = true /\ ext = None /\ forall P, pr (af_of af) P -> In id P).
 Proof.
-  intros [Ht Hinv Hz Hcv (dv & atk & H1 & H2 & H3 & H4 & H5)] Hsem Hlv Hbd Haf Hid Hs2 E.
-  assert (Hcls : cls ps2 = cls ps1) by (unfold cls; now rewrite Hs2).
-  assert (Hwf : wf (af_of af)) by (rewrite Haf; exact (af_of_wf L leqb leqb_spec _ (fresh_reachable_g os))).
-  assert (Hgr : co (af_of af) (grounded (view_of_fw af)) /\ NoDup (grounded (view_of_fw af))).
-  { rewrite Haf. destruct (grounded_store L leqb leqb_spec _ (fresh_reachable_g os)) as [[Hco _] Hnd]. split; assumption. }
-  assert (Hlive : has af id = true) by (eapply (get_argument_live L leqb leqb_spec); eassumption).
-  refine (pr_loop_spec af e (cls ps1) (1 + session_n_vars (sess ps1)) id dv atk Ht Hinv Hz Hcv H2 H3 H4 H5 Hsem _ _ Hwf Hgr _
-            fuel _ true None _ ps2 k result acc_b ref_b ext ps3 [] _ _ _ _ E).
-  - intros x Hx. specialize (Hlv x Hx). lia.
-  - replace (1 + session_n_vars (sess ps1) - 1) with (session_n_vars (sess ps1)) by lia. exact Hbd.
-  - lia.
-  - unfold linv. cbn [k_sel k_state]. split; [reflexivity|]. split; [|reflexivity].
-    exists []. rewrite app_nil_r. split; [exact Hcls|constructor].
-  - cbn [k_state]. discriminate.
-  - cbn [k_state]. discriminate.
-  - rewrite repeat_length. pose proof (has_lt L af id Hlive) as Hl.
-    unfold max_argument_id, ls_max_id. destruct (slots (ls af)); cbn [length] in *; lia.
+  intros A1 A2 A3 A4 A5 A6 A7 E.
+  pose proof (pr_search_out fuel af e ps1 ps2 l id os A1 A2 A3 A4 A5 A6 A7) as G. rewrite E in G. exact G.
 Qed.
 
 (* ---- cached entries of the preferred solver: the stored set is a preferred extension *)
@@ -640,6 +771,65 @@ Proof.
       split; [exact (proj1 (pr_adm _ _ Hp))|exact Hn].
     + split; [intros _|reflexivity]. intros P HP. exists id. split; [left; reflexivity|apply Hall, HP].
     + reflexivity.
+Qed.
+
+(* ---- the outcome form: returns the answer, or aborts on an Unknown; never panics; runs out of fuel
+   only if the fuel is below the bound *)
+Lemma bind_OOF {A B} (m : Prog.M A) (k : A -> Prog.M B) ps ps' :
+  bind m k ps = OutOfFuel ps' ->
+  m ps = OutOfFuel ps' \/ exists a ps1, m ps = Done a ps1 /\ k a ps1 = OutOfFuel ps'.
+Proof.
+  unfold bind. destruct (m ps) as [a ps1| | |]; intros E; try discriminate E; [right; eauto|].
+  left. injection E as ->. reflexivity.
+Qed.
+
+Lemma nof_not_OOF {A} (m : Prog.M A) ps ps' : nof m -> m ps <> OutOfFuel ps'.
+Proof. intros H E. specialize (H ps). rewrite E in H. exact H. Qed.
+
+Lemma pr_ds_query_oof thr fuel (s : dsolver) ps os l id ps' :
+  vreach thr KPr s ps os -> get_argument (run_ops fresh os) l = Some id ->
+  pr_ds_query oracle L leqb fuel s l ps = OutOfFuel ps' -> fuel < pr_dyn_bound (run_ops fresh os).
+Proof.
+  intros Hv Hl E. assert (Hsk : std_kind KPr) by (unfold std_kind; tauto).
+  pose proof (std_kind_reach L leqb _ _ _ (vreach_reach L leqb _ _ _ _ _ _ Hv) Hsk) as Hstd.
+  unfold pr_ds_query in E. destruct (is_skep L leqb (s_buf L s) l) as [[b|] [X|]]; [discriminate E| | |].
+  all: apply bind_OOF in E; destruct E as [E|([af buf] & ps1 & Hue & E)];
+    [exfalso; exact (nof_not_OOF _ _ _ (nof_update_encoding L leqb _ _ Hstd) E)|];
+    destruct (query_ready_pr thr s ps os af buf ps1 Hv Hue) as (e & He & Hrd & Hsem & Hlv & Hbd & Haf & _);
+    rewrite He in E;
+    apply bind_OOF in E; destruct E as [E|(n & ps2 & E2 & E)]; [discriminate E|];
+    apply n_vars_sess in E2; destruct E2 as [-> Hs2];
+    apply bind_OOF in E; destruct E as [E|(id' & ps3 & E3 & E)]; [exfalso; exact (nof_not_OOF _ _ _ (nof_opt_m _) E)|];
+    apply opt_m_Done in E3; destruct E3 as [Hid ->];
+    assert (id' = id) by (rewrite Haf in Hid; congruence); subst id';
+    pose proof (pr_search_out fuel af e ps1 ps2 l id os Hrd Hsem Hlv Hbd Haf Hid Hs2) as G;
+    apply bind_OOF in E; destruct E as [E|([[[[k result] acc_b] ref_b] X'] & ps4 & E4 & E)];
+    [rewrite E in G; rewrite <- Haf; exact G|];
+    exfalso; refine (nof_not_OOF _ _ _ _ E);
+    (apply nof_bind; [apply nof_opt_m|]); intros acc; (apply nof_bind; [apply nof_opt_m|]); intros refused;
+    (apply nof_bind; [apply nof_add_clause|]); intros _; apply nof_ret.
+Qed.
+
+Theorem pr_functional_run thr s ps os fuel cert l id :
+  vreach thr KPr s ps os -> get_argument (run_ops fresh os) l = Some id ->
+  match dyn_query oracle L leqb thr fuel s QDS cert l ps with
+  | Done (s', (b, c)) ps' => answer_ok PR false cert (af_of (run_ops fresh os)) id (b, c)
+  | Abort _ => True
+  | Panic _ => False
+  | OutOfFuel _ => fuel < pr_dyn_bound (run_ops fresh os)
+  end.
+Proof.
+  intros Hv Hl. pose proof (vreach_reach L leqb _ _ _ _ _ _ Hv) as Hr.
+  pose proof (reach_frame_inv L leqb _ _ _ Hr) as [Hkind _ _ _].
+  pose proof (std_query_never_panics L leqb leqb_spec KPr s os oracle thr fuel QDS cert l id ps Hr Hl
+                (or_intror (or_intror (conj eq_refl eq_refl)))) as Hnp.
+  destruct (dyn_query oracle L leqb thr fuel s QDS cert l ps) as [[s' [b c]] ps'|ps'|ps'|ps'] eqn:Hq.
+  - exact (pr_functional thr s ps os fuel cert l id s' b c ps' Hv Hl Hq).
+  - exact I.
+  - exact Hnp.
+  - unfold dyn_query in Hq. rewrite Hkind in Hq. apply bind_OOF in Hq.
+    destruct Hq as [Hq|(r & ps1 & _ & Hq)]; [|discriminate Hq].
+    exact (pr_ds_query_oof thr fuel s ps os l id ps' Hv Hl Hq).
 Qed.
 
 End Pref.
